@@ -87,7 +87,7 @@ def run(ctx):
         for n, (ini, t_end_scale, extra_ov) in enumerate(bases):
             for sched in (["heap_scheduler", "list_scheduler"] if not ctx.quick else [rng.choice(["heap_scheduler", "list_scheduler"])] if n else ["heap_scheduler", "list_scheduler"]):
                 seed = ctx.seed * 1000 + n
-                t_end = round(t_end_scale * rng.choice([3, 4, 5]), 3)
+                t_end = round(t_end_scale * rng.choice([3, 4, 5]) * ctx.n(1, 4), 3)
                 interval = round(t_end / rng.choice([3.3, 4.7, 6.1]), 4)
                 common = merge({"FinalTimeEndOfRunEventHandler": {"end_of_run_time": t_end}, "SingleProcessMediator": {"scheduler": sched}}, extra_ov)
                 dd = os.path.join(work, f"A{len(jobsA)}")
